@@ -471,6 +471,14 @@ impl Prop for C01 {
         }
     }
     fn gen(&self, rng: &mut Rng, _tier: Tier) -> ParseCase {
+        if rng.chance(1, 25) {
+            // a valid document with one corrupted token and read boundaries aimed at it (the
+            // generator of C08's exact clause): where the error is reported must not depend on
+            // the schedule either
+            let mut c = crate::props::locate::gen_exact(rng).base;
+            c.class = 1;
+            return c;
+        }
         gen_parse_case(rng, false)
     }
     fn exec(&self, case: &ParseCase, st: &mut Stats) -> RunOut {
